@@ -52,28 +52,102 @@ def r101(db, ctx):
             ctx.fail('R10.1', f, 'blanket complement', f'does not forward to the symbol complement: {X.show(r) if r else None}')
 
 
-def summarise_rc(db, ctx, f):
-    """Relational summary of one reverse_complement body -> canonical dict or None (+ failures reported)."""
-    R = X.Rec(f)
-    st = X.stores(f, R)
-    cells = []
-    for s in st:
+def _cell_stores(f, R):
+    """Cell stores new[ri][as_index(S1)] = <row>[as_index(S2)] of one body: list of (b, bv, s) and a list of unrecognised cell writes."""
+    cells, bad = [], []
+    for s in X.stores(f, R):
         tn, vn = norm(s['target']), norm(s['value'])
-        # target: data_new[i][as_index(S1)] ; value: row[as_index(S2)]
-        pt = ('idx', ('call~', 'index_mut', ('$new', '$i')), ('call~', 'as_index', ('$s1',)))
-        b = m(pt, tn)
+        b = m(('idx', ('call~', 'index_mut', ('$new', '$i')), ('call~', 'as_index', ('$s1',))), tn)
         if b is None:
             continue
         bv = m(('idx', '$row', ('call~', 'as_index', ('$s2',))), vn)
         if bv is None:
-            ctx.fail('R10.2', f, 'stored value', f'cell written from an unrecognised value {X.show(s["value"], 300)}', span=s['span'])
-            return None
+            bad.append(s)
+            continue
         cells.append((b, bv, s))
-    if len(cells) != 1:
-        ctx.fail('R10.2', f, 'matrix cell store', f'reason=unrecognised-shape: expected exactly one cell store data[i][sym] = row[sym\'], found {len(cells)}')
+    return cells, bad
+
+
+def _row_loop_range(e):
+    """ri/rj expressions range over elem#L(Range{0, N}): return (elem expr, N) for the unique range element mentioned, or None."""
+    found = []
+    for x in X.walk(e):
+        if x[0] == 'elem' and x[1][0] == 'agg' and isinstance(x[1][1], tuple) and x[1][1][0] == 'adt' and x[1][1][1].endswith('range::Range') and len(x[1][2]) == 2:
+            if x not in found:
+                found.append(x)
+    if len(found) != 1:
         return None
-    b, bv, s = cells[0]
-    # symbols: one side is elem(symbols()), the other complement(elem(symbols())) of the same loop
+    lo, hi = found[0][1][2]
+    if not (lo[0] == 'k' and lo[1] == 0):
+        return None
+    return found[0], hi
+
+
+def _is_rows(e, mats):
+    mm = m(('call~', 'DenseMatrix::rows', ('$m',)), e)
+    return mm is not None and mm['$m'] in mats
+
+
+def _covers_half(N, mats):
+    """Does 2*N >= rows hold for every rows >= 0?  -> True / False (provably not, e.g. rows/2) / None (unrecognised)."""
+    if _is_rows(N, mats):
+        return True
+    mm = m(('bin', 'Div', '$a', ('k', 2)), N)
+    if mm is not None:
+        a = mm['$a']
+        if _is_rows(a, mats):
+            return False          # floor(rows/2): the middle row of an odd-height matrix is not covered
+        la = X.lin(a)
+        atoms = [k for k in la if k != '']
+        if len(atoms) == 1 and la[atoms[0]] == 1 and la.get('', 0) >= 1:
+            # (rows + c)/2 with c >= 1
+            for x in X.walk(a):
+                if _is_rows(x, mats):
+                    return True
+    mm = m(('call~', 'div_ceil', ('$a', ('k', 2))), N)
+    if mm is not None and _is_rows(mm['$a'], mats):
+        return True
+    return None
+
+
+def summarise_rc(db, ctx, f0):
+    """Relational summary of one reverse_complement body -> canonical dict or None (+ failures reported).
+    Accepted designs (all must write every cell of every destination row):
+      (a) for (i,row) in self.data.iter().rev().enumerate() { for s in symbols() { new[i][idx s] = row[idx comp s] } }
+      (b) index forms new[ri][..] = old[rj][..] with ri + rj = rows-1, ri ranging over 0..rows, or pairwise over 0..N with 2N >= rows
+      (c) either of the above in one private helper called with &self.data whose result goes into the constructor."""
+    f = f0
+    R = X.Rec(f)
+    cells, bad = _cell_stores(f, R)
+    src_want = ('fld', ('p', 1), 'data')
+    via = None
+    if not cells and not bad:
+        # (c) delegation: exactly one workspace callee receiving &self.data and returning the matrix
+        cands = []
+        for bi, t in f.calls():
+            full = f.callee_short(t) or ''
+            if not full.startswith('lightmotif::') or full.startswith('lightmotif::dense::'):
+                continue
+            e = norm(R.call(t))
+            if e[0] == 'call' and any(a == src_want for a in e[2]):
+                g = db.fn(full) if full in db.fns else None
+                if g is not None:
+                    cands.append((t, g, [i for i, a in enumerate(e[2]) if a == src_want][0]))
+        if len(cands) == 1:
+            t, g, ai = cands[0]
+            via = (t, g)
+            f = g
+            R = X.Rec(f)
+            cells, bad = _cell_stores(f, R)
+            src_want = ('p', ai + 1)
+    if bad:
+        s = bad[0]
+        ctx.fail('R10.2', f, 'stored value', f'cell written from an unrecognised value {X.show(s["value"], 300)}', span=s['span'])
+        return None
+    if not cells:
+        ctx.fail('R10.2', f0, 'matrix cell store', 'reason=unrecognised-shape: no cell store data[i][sym] = row[sym\'] found in the body or in a helper taking &self.data')
+        return None
+
     def sym_kind(e):
         if e[0] == 'elem' and e[1][0] == 'call' and e[1][1].endswith('Alphabet::symbols'):
             return ('s', e[2])
@@ -82,80 +156,145 @@ def summarise_rc(db, ctx, f):
             if k and k[0] == 's':
                 return ('c', k[1])
         return None
-    k1, k2 = sym_kind(b['$s1']), sym_kind(bv['$s2'])
-    if not k1 or not k2 or k1[1] != k2[1]:
-        ctx.fail('R10.2', f, 'column permutation', f'columns are not driven by one loop over symbols(): dst {X.show(b["$s1"])}, src {X.show(bv["$s2"])}', span=s['span'])
+
+    newvs = {c[0]['$new'] for c in cells}
+    if len(newvs) != 1:
+        ctx.fail('R10.2', f, 'destination matrix', f'reason=unrecognised-shape: cells are written into {len(newvs)} different matrices')
         return None
-    if {k1[0], k2[0]} != {'s', 'c'}:
-        ctx.fail('R10.2', f, 'column permutation',
-                 f'complement applied on {"both sides" if k1[0] == "c" else "neither side"}: new[{X.show(b["$s1"])}] = old[{X.show(bv["$s2"])}]', span=s['span'])
-        return None
-    # rows: (i,row) = enumerate(rev(iter(self.data)))   or   index forms with i + j = rows-1
-    i, row = b['$i'], bv['$row']
-    rowrel = None
-    pi = m(('fld', ('elem', '$chain', '$L'), '0'), i)
-    pr = m(('fld', ('elem', '$chain', '$L'), '1'), row)
-    if pi and pr and pi['$chain'] == pr['$chain'] and pi['$L'] == pr['$L']:
-        ch = pi['$chain']
-        mm = m(('call~', 'enumerate', (('call~', 'rev', (('call~', 'DenseMatrix::iter', ('$src',)),)),)), ch)
-        if mm:
-            rowrel = ('rev', mm['$src'])
-        else:
-            ctx.fail('R10.2', f, 'row order', f'rows are not visited in reverse: iterator chain is {X.show(ch, 300)}', span=s['span'])
+    newv = next(iter(newvs))
+    mats = [src_want, newv, ('ref', newv), ('ref', src_want)]
+    direction = None
+    cover = []          # per store: ('all',) | ('low', N) | ('high', N)
+    for b, bv, s in cells:
+        k1, k2 = sym_kind(b['$s1']), sym_kind(bv['$s2'])
+        if not k1 or not k2 or k1[1] != k2[1]:
+            ctx.fail('R10.2', f, 'column permutation', f'columns are not driven by one loop over symbols(): dst {X.show(b["$s1"])}, src {X.show(bv["$s2"])}', span=s['span'])
             return None
-    else:
-        # index form: new[i] <- old[j] with i + j == rows(old) - 1
+        if {k1[0], k2[0]} != {'s', 'c'}:
+            ctx.fail('R10.2', f, 'column permutation',
+                     f'complement applied on {"both sides" if k1[0] == "c" else "neither side"}: new[{X.show(b["$s1"])}] = old[{X.show(bv["$s2"])}]', span=s['span'])
+            return None
+        direction = k1[0] + k2[0]
+        i, row = b['$i'], bv['$row']
+        pi = m(('fld', ('elem', '$chain', '$L'), '0'), i)
+        pr = m(('fld', ('elem', '$chain', '$L'), '1'), row)
+        if pi and pr and pi['$chain'] == pr['$chain'] and pi['$L'] == pr['$L']:
+            ch = pi['$chain']
+            mm = m(('call~', 'enumerate', (('call~', 'rev', (('call~', 'DenseMatrix::iter', ('$src',)),)),)), ch)
+            if not mm:
+                ctx.fail('R10.2', f, 'row order', f'rows are not visited in reverse: iterator chain is {X.show(ch, 300)}', span=s['span'])
+                return None
+            if mm['$src'] != src_want:
+                ctx.fail('R10.2', f, 'source matrix', f'rows are read from {X.show(mm["$src"])}, expected self.data', span=s['span'])
+                return None
+            cover.append(('all',))
+            continue
         pj = m(('call~', 'index', ('$src', '$j')), row)
-        if pj:
-            li = X.lin(i)
-            lj = X.lin(pj['$j'])
-            tot = dict(li)
-            for k_, v in lj.items():
-                tot[k_] = tot.get(k_, 0) + v
-            tot = {k_: v for k_, v in tot.items() if v != 0}
-            rows_atom = [k_ for k_ in tot if k_ != '' and 'rows' in k_]
-            if tot.get('', 0) == -1 and len(rows_atom) == 1 and tot[rows_atom[0]] == 1 and len(tot) == 2:
-                rowrel = ('rev', pj['$src'])
-        if rowrel is None:
+        if pj is None:
             ctx.fail('R10.2', f, 'row order', f'reason=unrecognised-shape: cannot relate destination row {X.show(i)} to source row {X.show(row)}', span=s['span'])
             return None
-    src = rowrel[1]
-    if m(('fld', ('p', 1), 'data'), src) is None:
-        ctx.fail('R10.2', f, 'source matrix', f'rows are read from {X.show(src)}, expected self.data', span=s['span'])
+        if pj['$src'] != src_want:
+            ctx.fail('R10.2', f, 'source matrix', f'rows are read from {X.show(pj["$src"])}, expected self.data', span=s['span'])
+            return None
+        li, lj = X.lin(i), X.lin(pj['$j'])
+        tot = dict(li)
+        for k_, v in lj.items():
+            tot[k_] = tot.get(k_, 0) + v
+        tot = {k_: v for k_, v in tot.items() if v != 0}
+        rows_atom = [k_ for k_ in tot if k_ != '' and 'rows' in k_]
+        if not (tot.get('', 0) == -1 and len(rows_atom) == 1 and tot[rows_atom[0]] == 1 and len(tot) == 2):
+            ctx.fail('R10.2', f, 'row order', f'destination row {X.show(i)} and source row {X.show(pj["$j"])} do not sum to rows-1', span=s['span'])
+            return None
+        rng = _row_loop_range(i)
+        if rng is None:
+            ctx.fail('R10.2', f, 'row coverage', f'reason=unrecognised-shape: destination row {X.show(i)} does not range over one 0..N loop', span=s['span'])
+            return None
+        el, N = rng
+        atom = X.canon_atom(el)
+        nz = {k_: v for k_, v in li.items() if v != 0}
+        if nz == {atom: 1}:
+            cover.append(('low', N))
+        elif nz.get(atom) == -1 and nz.get('', 0) == -1 and len(nz) == 3 and any('rows' in k_ and v == 1 for k_, v in nz.items()):
+            cover.append(('high', N))
+        else:
+            ctx.fail('R10.2', f, 'row coverage', f'reason=unrecognised-shape: destination row index {X.show(i)}', span=s['span'])
+            return None
+    # coverage of destination rows 0..rows
+    full = False
+    why = None
+    for c in cover:
+        if c[0] == 'all' or (c[0] in ('low', 'high') and _is_rows(c[1], mats)):
+            full = True
+    if not full:
+        lows = [c for c in cover if c[0] == 'low']
+        highs = [c for c in cover if c[0] == 'high']
+        if lows and highs:
+            vals = {_covers_half(c[1], mats) for c in lows + highs}
+            if vals == {True}:
+                full = True
+            elif False in vals:
+                why = f'rows are filled pairwise for i in 0..{X.show(lows[0][1])}: the middle row of an odd-height matrix is never written (stays uncomplemented / default)'
+            else:
+                why = f'reason=unrecognised-shape: cannot decide that 0..{X.show(lows[0][1])} and its mirror cover every row'
+        else:
+            why = f'only rows {"0..N" if lows else "rows-N..rows"} with N = {X.show((lows + highs)[0][1])} are written'
+    if not full:
+        ctx.fail('R10.2', f, 'row coverage', why, span=cells[0][2]['span'])
         return None
-    # new matrix: DenseMatrix::new(rows(self.data)) (row count preserved), zero-filled
-    newv = b['$new']
+    # new matrix has the row count of the source: DenseMatrix::new(rows(src)) or src.clone()
     ok_new = False
     if newv[0] == 'v':
         d = f.defs().get(newv[1], [])
         if len(d) == 1 and d[0][1] == 'term':
             ne = norm(R.call(d[0][2]))
-            if m(('call~', 'DenseMatrix::new', (('call~', 'DenseMatrix::rows', (('fld', ('p', 1), 'data'),)),)), ne) is not None:
+            if m(('call~', 'DenseMatrix::new', (('call~', 'DenseMatrix::rows', (src_want,)),)), ne) is not None:
+                ok_new = True
+            mc = m(('call~', 'clone', ('$x',)), ne)
+            if mc is not None and mc['$x'] == src_want:
                 ok_new = True
     if not ok_new:
-        ctx.fail('R10.2', f, 'row count', 'the new matrix is not DenseMatrix::new(self.data.rows())', span=s['span'])
+        ctx.fail('R10.2', f, 'row count', 'the new matrix is neither DenseMatrix::new(<source>.rows()) nor a clone of the source', span=cells[0][2]['span'])
         return None
-    # whole symbols() table iterated (no slicing of the symbol loop)
+    if via is not None:
+        # the helper returns the matrix it filled (single def of _0, a move/copy of the new matrix, no Rec inlining)
+        d0 = f.defs().get(0, [])
+        ok_ret = False
+        if len(d0) == 1 and d0[0][1] != 'term' and d0[0][2].get('k') == 'use':
+            a = d0[0][2]['a']
+            pl = a.get('c') or a.get('m') or {}
+            ok_ret = pl.get('l') == newv[1] and not pl.get('pr')
+        if not ok_ret:
+            ctx.fail('R10.2', f, 'helper result', 'reason=unrecognised-shape: helper does not return the matrix it filled by a plain move')
+            return None
     # returned value carries the new matrix and unchanged metadata
     ret = None
-    for bi, t in f.calls():
+    for bi, t in f0.calls():
         if t['dest']['l'] == 0 and not t['dest']['pr']:
-            ret = norm(R.call(t))
+            ret = (t, norm(X.Rec(f0).call(t)))
     meta_ok = False
-    if ret and ret[0] == 'call':
-        args = ret[2]
-        has_new = any(a == newv for a in args)
-        others = [a for a in args if a != newv]
-        def is_self_meta(a):
-            return (m(('fld', ('p', 1), '$f'), a) is not None) or (a[0] == 'call' and a[1].endswith('clone') and m(('fld', ('p', 1), '$f'), a[2][0]) is not None)
-        meta_ok = has_new and all(is_self_meta(a) for a in others)
+    shown = None
+    if ret:
+        t, rexp = ret
+        shown = rexp
+        if rexp[0] == 'call':
+            args = rexp[2]
+            if via is None:
+                isnew = lambda a: a == newv
+            else:
+                hshort = via[1].path
+                isnew = lambda a: a[0] == 'call' and (a[3] if len(a) > 3 else a[1]).endswith(hshort.rsplit('::', 1)[-1])
+            has_new = any(isnew(a) for a in args)
+            others = [a for a in args if not isnew(a)]
+            def is_self_meta(a):
+                return (m(('fld', ('p', 1), '$f'), a) is not None) or (a[0] == 'call' and a[1].endswith('clone') and m(('fld', ('p', 1), '$f'), a[2][0]) is not None)
+            meta_ok = has_new and all(is_self_meta(a) for a in others)
     if not meta_ok:
-        ctx.fail('R10.2', f, 'result construction', f'result is not built from the new matrix and self\'s unchanged metadata: {X.show(ret) if ret else None}')
+        ctx.fail('R10.2', f0, 'result construction', f'result is not built from the new matrix and self\'s unchanged metadata: {X.show(shown) if shown else None}')
         return None
-    summ = {'rows': 'reversed', 'cols': 'complement-permuted', 'direction': k1[0] + k2[0], 'ctor': ret[1].rsplit('::', 1)[-1],
-            'meta': sorted(X.show(a) for a in ret[2] if a != newv)}
-    ctx.ok('R10.2', f, 'new[i][σ(s)] = old[rows-1-i][σ(comp(s))] for every s in symbols(); rows preserved; metadata carried',
-           ['enumerate(rev(iter(self.data)))', 'one loop over Alphabet::symbols()', 'R10.1 involution'])
+    summ = {'rows': 'reversed', 'cols': 'complement-permuted', 'direction': direction, 'ctor': shown[1].rsplit('::', 1)[-1],
+            'via': via[1].path if via else None}
+    ctx.ok('R10.2', f0, 'new[i][σ(s)] = old[rows-1-i][σ(comp(s))] for every s in symbols() and every row i; rows preserved; metadata carried',
+           [('helper ' + via[1].path) if via else 'inline body', f'{len(cells)} cell store(s), coverage {[c[0] for c in cover]}', 'one loop over Alphabet::symbols()', 'R10.1 involution'])
     return summ
 
 
